@@ -31,6 +31,10 @@ def request(req, what=None):
         raise panic_violation(resp["panic"], what or str(req)[:500])
     if "bad_request" in resp:
         raise RuntimeError(f"bad request: {resp}")
+    if resp.get("gc_overcounts"):
+        # hook H4: a collection saw an object reached through more in-heap handles than exist (a handle traced twice)
+        raise Violation("gc-handle-traced-twice", f"a collection counted {resp['gc_overcounts']} object(s) with more in-heap visits than handles "
+                                                  f"(some GcTrace implementation visits a handle twice) on {what or str(req)[:500]}")
     return resp
 
 
